@@ -37,6 +37,23 @@ func c06Prog(sc c06Scen) *LazyProgram {
 				x := rapid.Int16().Draw(t, "x")
 				y := rapid.SliceOfN(rapid.Uint8(), 0, 3).Draw(t, "y")
 				key = fmt.Sprint(x, y)
+			case "steps":
+				// a state machine: the invariant fails when two steps have been made. The failing call is preceded by
+				// points at which rapid itself looks at the failure state of the T (start of Repeat, every action)
+				n := 0
+				t.Repeat(map[string]func(*rapid.T){
+					"inc": func(t *rapid.T) { rapid.Bool().Draw(t, "b"); n++ },
+					"": func(t *rapid.T) {
+						if n == 2 { // once: a non-fatal kind lets the machine go on
+							e.cur.Draws = fmt.Sprint("steps", n)
+							for _, c := range sc.chunks {
+								t.Log(c)
+							}
+							e.Do(t, "body", e.cur.Draws)
+						}
+					},
+				})
+				return
 			case "many":
 				s := rapid.SliceOfN(rapid.Uint64(), 3000, 3000).Draw(t, "s")
 				key = fmt.Sprint(len(s), s[0], s[len(s)-1], hashStr(fmt.Sprint(s)))
@@ -177,6 +194,10 @@ func c06Run(c *Ctx, sc c06Scen, seed uint64) {
 	cfg2 := cfg
 	cfg2.Seed = seed + 1000
 	check2("same-dir", cfg2)
+	// -rapid.nofailfile only says "do not write fail files": the stored one is still found and replayed first
+	cfgN := cfg2
+	cfgN.NoFailFile = true
+	check2("same-dir+nofailfile", cfgN)
 	// run 3: explicit -rapid.failfile from an otherwise empty directory
 	data := log1.Files[path]
 	CleanFailFiles()
@@ -247,7 +268,7 @@ func c06Units(tier string, seed int64) []Unit {
 		}
 	}
 	scens = append(scens, c06Scen{"TestNoLog", nil, "few", BFatalA})
-	for _, s := range sizes {
+	for _, s := range append(append([]string{}, sizes...), "steps") {
 		for _, k := range kinds {
 			scens = append(scens, c06Scen{"TestSK", []string{"plain line"}, s, k})
 		}
